@@ -112,6 +112,115 @@ struct Holder
     v V
     w W = a
 ''',
+    'cpc': '''
+namespace cpc
+
+annotation InternalOnly = Omitted("internal")
+annotation AlphaOnly = Omitted("alpha")
+annotation HashIt = RedactedHash()
+annotation BlotIt = RedactedBlot()
+annotation PartBlot = RedactedBlot("(keep-)(?:.*)")
+annotation PartHash = RedactedHash("(keep-)(?:.*)")
+
+alias Secret = String
+    @HashIt
+
+alias SecretList = List(Secret)
+
+struct P
+    pub String
+    internal_f String
+        @InternalOnly
+    alpha_n Int64?
+        @AlphaOnly
+    sec String
+        @BlotIt
+    sech String?
+        @HashIt
+    secl List(String)
+        @BlotIt
+    secm Map(String, String)
+        @HashIt
+    both String?
+        @InternalOnly
+        @BlotIt
+    ali Secret
+    alil SecretList
+    alim Map(String, List(Secret))?
+    part String?
+        @PartBlot
+    parth String?
+        @PartHash
+    num Int64?
+        @HashIt
+
+struct Q extends P
+    q_int String?
+        @InternalOnly
+    q_alpha P?
+        @AlphaOnly
+
+struct R
+    ps List(P)
+    pm Map(String, Q)?
+    u Tagged
+
+union Tagged
+    v
+    t_int String
+        @InternalOnly
+    t_alpha P
+        @AlphaOnly
+    t_sec String
+        @HashIt
+    t_nsec String?
+        @BlotIt
+    t_lsec List(String)?
+        @HashIt
+    t_msec Map(String, String)?
+        @BlotIt
+    t_nali Secret?
+    t_p P
+    t_q Q?
+    t_g G3
+
+struct G1
+    g1 String
+    g1_int String?
+        @InternalOnly
+
+struct G2 extends G1
+    g2 String?
+
+struct G3 extends G2
+    g3_int String?
+        @InternalOnly
+    g3_alpha String?
+        @AlphaOnly
+
+struct E1
+    union
+        e2 E2
+        e3 E3
+    e1 String
+    e1_int String?
+        @InternalOnly
+
+struct E2 extends E1
+    e2f String?
+        @BlotIt
+
+struct E3 extends E1
+    e3_alpha String?
+        @AlphaOnly
+    e3_int String?
+        @InternalOnly
+
+struct Holder13
+    e E1
+    es List(E1)
+    g G3?
+''',
     'cpb': '''
 namespace cpb
 
@@ -129,10 +238,26 @@ union FarU extends cpa.W
 _state = {}
 
 
+class CorpusBuildError(Exception):
+    """the corpus specs (valid Stone) could not be compiled by the frontend / python_types backend of the tree
+    under verification, or the generated modules do not import"""
+
+
 def load():
     """compile + import the corpus once per process"""
     if 'mods' in _state:
         return _state['mods']
+    if 'error' in _state:
+        raise CorpusBuildError(_state['error'])
+    try:
+        return _load()
+    except Exception:
+        import traceback
+        _state['error'] = traceback.format_exc()[-1500:]
+        raise CorpusBuildError(_state['error'])
+
+
+def _load():
     from stone.frontend.frontend import specs_to_ir
     from stone.compiler import Compiler
     import stone.backends.python_types as backend
@@ -169,31 +294,42 @@ def api():
     return _state['api']
 
 
-def struct_classes():
+# namespaces whose classes carry per-permission tables / redactors: outside the no-permission, no-redaction
+# scope (ctx_ok) of the C05 / C06 contracts and of GEN-WF as stated there; used by the C13 check only
+ANNOTATED = ('cpc',)
+
+
+def struct_classes(annotated=False):
     import stone.backends.python_rsrc.stone_base as bb
     out = []
     for name, m in sorted(load().items()):
+        if (name in ANNOTATED) != annotated:
+            continue
         for k, v in sorted(vars(m).items()):
             if isinstance(v, type) and issubclass(v, bb.Struct) and v is not bb.Struct and v.__module__ == m.__name__:
                 out.append(('%s.%s' % (name, k), v))
     return out
 
 
-def union_classes():
+def union_classes(annotated=False):
     import stone.backends.python_rsrc.stone_base as bb
     out = []
     for name, m in sorted(load().items()):
+        if (name in ANNOTATED) != annotated:
+            continue
         for k, v in sorted(vars(m).items()):
             if isinstance(v, type) and issubclass(v, bb.Union) and v is not bb.Union and v.__module__ == m.__name__:
                 out.append(('%s.%s' % (name, k), v))
     return out
 
 
-def validators():
+def validators(annotated=False):
     """(expression, validator) for every module-level *_validator"""
     import stone.backends.python_rsrc.stone_validators as bv
     out = []
     for name, m in sorted(load().items()):
+        if (name in ANNOTATED) != annotated:
+            continue
         for k, v in sorted(vars(m).items()):
             if k.endswith('_validator') and isinstance(v, bv.Validator):
                 out.append(('%s.%s' % (name, k), v))
@@ -226,13 +362,14 @@ def validator_expr(v):
             elif isinstance(val, bv.Map):
                 walk(expr + '.key_validator', val.key_validator, depth + 1)
                 walk(expr + '.value_validator', val.value_validator, depth + 1)
-        for e, vv in validators():
-            walk(e, vv)
-        for e, c in struct_classes():
-            for k, (fname, fv) in enumerate(c._all_fields_):
-                walk('%s._all_fields_[%d][1]' % (e, k), fv)
-        for e, c in union_classes():
-            for tag, tv in sorted(c._tagmap.items()):
-                walk('%s._tagmap[%r]' % (e, tag), tv)
+        for ann in (False, True):
+            for e, vv in validators(ann):
+                walk(e, vv)
+            for e, c in struct_classes(ann):
+                for k, (fname, fv) in enumerate(c._all_fields_):
+                    walk('%s._all_fields_[%d][1]' % (e, k), fv)
+            for e, c in union_classes(ann):
+                for tag, tv in sorted(c._tagmap.items()):
+                    walk('%s._tagmap[%r]' % (e, tag), tv)
         _state['vexpr'] = table
     return _state['vexpr'].get(id(v))
